@@ -6,6 +6,16 @@
 // blocks and SetProcessed calls. A part of the cases sends the forced requests through the real hardfork
 // trigger (update/trigger), which is where arbitrary requested rounds come from in production (the round
 // of a network message is handed verbatim to ForceEpochStart).
+//
+// Rollbacks: a part of the announced epoch starts is abandoned (the start-of-epoch block of epoch N+1 never
+// gets committed) and the chain is rolled back onto the committed start-of-epoch block of epoch N
+// (RevertStateToBlock with a start-of-epoch header, which is "process that block again"). The clauses of the
+// property are then applied from that block: the next epoch start must announce N+1.
+//
+// Concurrent phase (concurrent.go): forced requests come from other goroutines (API / hardfork trigger) than the
+// block-processing goroutine that calls Update/SetProcessed; a log observer pauses briefly on every line of the
+// epochStart loggers so that a goroutine is pre-empted where it logs; the oracle is applied to the recorded
+// sequence of epoch-start events.
 package main
 
 import (
@@ -14,6 +24,7 @@ import (
 	"math"
 	"sort"
 	"strings"
+	"sync"
 	"time"
 
 	logger "github.com/ElrondNetwork/elrond-go-logger"
@@ -87,18 +98,36 @@ func lenBucket(length, minR, per uint64) string {
 func main() {
 	_ = logger.SetLogLevel("*:NONE")
 	r := vk.Start("C34")
-	r.Rule("each case: random (MinRoundsBetweenEpochs 1..25, RoundsPerEpoch min..min+40, initial epoch/start round), 150..400 steps of Update(round,nonce) with round increments 1 (mostly), 2..4 (skipped rounds) or a jump past the epoch; forced requests (1 in 7, 20 or 60 steps, or none, per case) of kinds ahead/equal/past-of-current-round/before-epoch-start/zero/max/too-far/at-clamp-bounds, issued directly or through the real hardfork trigger; the start-of-epoch block is processed immediately or after 1..4 further rounds. One evaluation = one oracle application after an Update or SetProcessed. A finished epoch is non-trivial when it saw a forced request, a skipped round or a delayed start block; distinct = distinct (request kinds, delayed, skipped, length bucket).")
+	r.Rule("each case: random (MinRoundsBetweenEpochs 1..25, RoundsPerEpoch min..min+40, initial epoch/start round), 150..400 steps of Update(round,nonce) with round increments 1 (mostly), 2..4 (skipped rounds) or a jump past the epoch; forced requests (1 in 7, 20 or 60 steps, or none, per case) of kinds ahead/equal/past-of-current-round/before-epoch-start/zero/max/too-far/at-clamp-bounds, issued directly or through the real hardfork trigger; the start-of-epoch block is processed immediately or after 1..4 further rounds; 1 in 8 announced epoch starts (once a start-of-epoch block was committed) is abandoned after 0..3 further rounds by RevertStateToBlock(last committed start-of-epoch block). Concurrent phase: per case one block-processing goroutine (Update every round, SetProcessed immediately or 1..3 rounds late) and two goroutines issuing ForceEpochStart (past/zero/below-min/in-range/ahead/too-far rounds), with a log observer that pauses (yield or 20..300 us sleep) on every line of the epochStart loggers; the oracle runs over the recorded (epoch, round) start events. One evaluation = one oracle application after an Update or SetProcessed. A finished epoch is non-trivial when it saw a forced request, a skipped round or a delayed start block; distinct = distinct (request kinds, delayed, skipped, length bucket).")
 	r.Assume("the trigger's documented guard 'no epoch start below nonce 4' is modelled (no start is demanded below that nonce)",
 		"the start round of an epoch is the round of its processed start-of-epoch block (EpochStartRound()); when a forced request arrives between the trigger and that block, the minimum is measured from the trigger round (the more lenient reading)",
-		"the hardfork trigger (update/trigger) takes no epoch-length decision of its own; it is exercised only as the producer of requested rounds")
+		"the hardfork trigger (update/trigger) takes no epoch-length decision of its own; it is exercised only as the producer of requested rounds",
+		"rollbacks are not named in the property's quantifier; they are included under this reading: after the chain is rolled back onto the committed start-of-epoch block of epoch N (RevertStateToBlock with that block, i.e. the block is processed again) the metachain epoch is N, so the next epoch start must announce N+1, not earlier than min rounds after that block, and at the first round after rounds-per-epoch at the latest; which forced requests survive a rollback is left open (no exact target is demanded)",
+		"concurrent phase: Update/SetProcessed are called by one goroutine only (as in the node), ForceEpochStart by others; every call is atomic in the reference model, so in every interleaving consecutive epoch-start (trigger) rounds are at least min apart and a start is due once round > EpochStartRound()+rounds-per-epoch; pauses are injected only through the log observer, i.e. where the code itself calls the logger")
 	r.MinShapes(20)
 	nCases := r.N(6000, 300000)
 
 	r.Parallel(nCases, func(c *vk.Case) {
+		if c.Idx >= nCases { // replay of a case of the concurrent phase
+			return
+		}
 		runCase(r, c)
 	})
+	strictMu.Lock()
+	if strictWitness != nil {
+		r.Extra("lenient_reading_witness (start fewer than min rounds after EpochStartRound(), accepted: measured from the trigger round)", strictWitness)
+	}
+	strictMu.Unlock()
+
+	runConcurrentPhase(r, nCases)
 	r.Finish()
 }
+
+// first sequence in which the lenient reading of the minimum (see Assume) was needed
+var (
+	strictMu      sync.Mutex
+	strictWitness map[string]interface{}
+)
 
 func runCase(r *vk.Run, c *vk.Case) {
 	rng := c.Rng
@@ -186,6 +215,10 @@ func runCase(r *vk.Run, c *vk.Case) {
 	var reqs []request
 	skippedInEpoch := false
 	delayedInEpoch := false
+	var lastStart *block.MetaBlock // the last committed start-of-epoch block
+	abandon := false               // the announced epoch start will be abandoned (rollback onto lastStart)
+	rolledBack := false            // the current epoch was re-entered by a rollback
+	var prevReqs []request         // requests of the epoch whose end was announced (needed when that end is abandoned)
 
 	detail := func(extra map[string]interface{}) map[string]interface{} {
 		m := map[string]interface{}{"min_rounds": cs.minR, "rounds_per_epoch": cs.per, "start_epoch": startEpoch, "start_round": startRound, "via_hardfork_trigger": viaHardfork, "last_ops": cs.tail(40)}
@@ -340,7 +373,13 @@ func runCase(r *vk.Run, c *vk.Case) {
 				if viaHardfork && len(reqs) > 0 {
 					r.Count("epoch starts after hardfork-trigger requests", 1)
 				}
-				if tr.Epoch() != prevEpoch+1 || tr.Epoch() != epoch+1 {
+				if rolledBack {
+					// the chain head is (a descendant of) the committed start-of-epoch block of epoch `epoch`
+					r.Count("epoch starts after a rollback onto a start-of-epoch block", 1)
+					if tr.Epoch() != epoch+1 {
+						r.Violation(c.Idx, "epoch-skip-after-rollback", fmt.Sprintf("the chain was rolled back onto the committed start-of-epoch block of epoch %d (the announced start of epoch %d was abandoned); the next epoch start in round %d announces epoch %d instead of %d", epoch, epoch+1, round, tr.Epoch(), epoch+1), detail(nil))
+					}
+				} else if tr.Epoch() != prevEpoch+1 || tr.Epoch() != epoch+1 {
 					r.Violation(c.Idx, "epoch-skip", fmt.Sprintf("epoch went from %d to %d at the start in round %d", prevEpoch, tr.Epoch(), round), detail(nil))
 				}
 				if tr.EpochStartRound() != round {
@@ -358,6 +397,18 @@ func runCase(r *vk.Run, c *vk.Case) {
 						fmt.Sprintf("min %d rounds/per %d: epoch %d started in round %d, epoch %d starts in round %d (%d rounds later); requests in this epoch: %s", cs.minR, cs.per, epoch, baseMin, epoch+1, round, length, fmtReqs(reqs)),
 						detail(map[string]interface{}{"prev_start_round": baseMin, "new_start_round": round}))
 				}
+				if baseMin != baseStrict && round-baseStrict < cs.minR {
+					// only the lenient reading (see Assume) accepts this start
+					r.Count("starts fewer than min rounds after EpochStartRound() but not after the trigger round (forced request while the start block was pending; lenient reading)", 1)
+					r.Max("lenient reading: largest shortfall against EpochStartRound() (rounds)", int64(cs.minR-(round-baseStrict)))
+					strictMu.Lock()
+					if strictWitness == nil || len(cs.ops) < strictWitness["n_ops"].(int) {
+						strictWitness = map[string]interface{}{"n_ops": len(cs.ops), "case": c.Idx, "min_rounds": cs.minR, "rounds_per_epoch": cs.per,
+							"epoch": epoch, "trigger_round": baseLenient, "start_block_round (EpochStartRound())": baseStrict, "next_epoch_start_round": round,
+							"requests": fmtReqs(reqs), "last_ops": append([]string{}, cs.tail(14)...)}
+					}
+					strictMu.Unlock()
+				}
 				if len(reqs) == 0 && !(round > baseStrict+cs.per) {
 					r.Violation(c.Idx, "unforced-start-early", fmt.Sprintf("no forced request, epoch start round %d, rounds per epoch %d, yet the next epoch starts in round %d", baseStrict, cs.per, round), detail(nil))
 				}
@@ -374,10 +425,10 @@ func runCase(r *vk.Run, c *vk.Case) {
 					ks = append(ks, k)
 				}
 				sort.Strings(ks)
-				if len(reqs) == 0 && !skippedInEpoch && !delayedInEpoch {
+				if len(reqs) == 0 && !skippedInEpoch && !delayedInEpoch && !rolledBack {
 					r.Trivial()
 				} else {
-					r.Shape(fmt.Sprintf("req=[%s] delayed=%v skipped=%v len%s", strings.Join(ks, ","), delayedInEpoch, skippedInEpoch, lenBucket(length, cs.minR, cs.per)))
+					r.Shape(fmt.Sprintf("req=[%s] delayed=%v skipped=%v rolledback=%v len%s", strings.Join(ks, ","), delayedInEpoch, skippedInEpoch, rolledBack, lenBucket(length, cs.minR, cs.per)))
 				}
 				r.Max("longest epoch (rounds)", int64(round-baseStrict))
 				if r.NeedSample() && len(reqs) > 0 && c.Idx%97 == 0 {
@@ -396,6 +447,13 @@ func runCase(r *vk.Run, c *vk.Case) {
 					delayedInEpoch = false
 				}
 				skippedInEpoch = false
+				rolledBack = false
+				// 1 in 8 announced epoch starts is abandoned: rollback onto the last committed start-of-epoch block
+				abandon = lastStart != nil && rng.Chance(1, 8)
+				if abandon {
+					pendingLeft = rng.Intn(4)
+				}
+				prevReqs = reqs
 				reqs = nil
 			} else {
 				if tr.Epoch() != prevEpoch {
@@ -417,6 +475,32 @@ func runCase(r *vk.Run, c *vk.Case) {
 		}
 
 		// ---- start-of-epoch block
+		if pending && pendingLeft <= 0 && abandon {
+			// the announced start of epoch `epoch` is abandoned: its start-of-epoch block never gets committed and
+			// the chain is rolled back onto the committed start-of-epoch block of the previous epoch
+			errR := mt.RevertStateToBlock(lastStart)
+			cs.log("RevertStateToBlock(start-of-epoch meta block epoch %d round %d) [announced start of epoch %d in round %d abandoned]", lastStart.Epoch, lastStart.Round, epoch, baseLenient)
+			r.Eval(1)
+			r.Count("rollbacks onto the committed start-of-epoch block while the next epoch start was pending", 1)
+			if errR != nil {
+				r.Violation(c.Idx, "rollback-error", fmt.Sprintf("RevertStateToBlock(start-of-epoch block of epoch %d): %v", lastStart.Epoch, errR), detail(nil))
+			}
+			epoch = lastStart.Epoch
+			baseStrict = lastStart.Round
+			baseLenient = lastStart.Round
+			pending = false
+			abandon = false
+			rolledBack = true
+			delayedInEpoch = false
+			// Requests of the re-entered epoch (consumed by the abandoned start) and requests made while that start
+			// was pending: the property does not say which of them are still in force, so all of them count as
+			// "a request was made" and none of them as an exact target.
+			all := append(append([]request{}, prevReqs...), reqs...)
+			for k := range all {
+				all[k].whilePending = true
+			}
+			reqs = all
+		}
 		if pending && pendingLeft <= 0 {
 			mb := &block.MetaBlock{Epoch: epoch, Round: round, Nonce: nonce,
 				EpochStart: block.EpochStart{LastFinalizedHeaders: []block.EpochStartShardData{{ShardID: 0}}}}
@@ -432,6 +516,8 @@ func runCase(r *vk.Run, c *vk.Case) {
 			}
 			pending = false
 			baseStrict = round
+			lastStart = &block.MetaBlock{Epoch: epoch, Round: round, Nonce: nonce,
+				EpochStart: block.EpochStart{LastFinalizedHeaders: []block.EpochStartShardData{{ShardID: 0}}}}
 			// requests made while pending stay in reqs (they belong to the new epoch)
 		}
 	}
